@@ -652,4 +652,190 @@ theorem cpl_varDefs (n : Nat) (ts o : List Tok) (hok : TsOK ts) (hd : D (.opt (.
     refine ⟨?_, hσ⟩
     rw [printVarDefs_cons (all₂_ne hy hne), flatMap_forall₂ (P := printVarDef) (g := fun (p : List Tok × List Tok) => p.2) hy]
 
+/-! ### selections -/
+
+theorem dropSelfAlias_field (al nm : Name) (args : List Argument) (ds : List Directive) (ss : Selections) (pos : Pos)
+    (colon : Bool) (hcol : colon = false → al = nm) :
+    dropSelfAlias ((if colon then [tName al, tP .colon] else []) ++ ([tName nm] ++ (printArguments args ++
+      (printDirectives ds ++ selOut ss)))) = printSelection (.field al nm args ds ss pos) := by
+  rw [printSelection_field]
+  cases colon with
+  | false =>
+    have := hcol rfl
+    subst this
+    simp only [Bool.false_eq_true, if_false, List.nil_append, if_true, List.singleton_append]
+    refine dropSelfAlias_plain _ _ (head_append (fun t h => ?_) (head_append (fun t h => ?_) (head_selOut ss)))
+    · rw [head_printArguments _ t h]; simp [tP]
+    · rw [head_printDirectives _ t h]; simp [tP]
+  | true =>
+    by_cases he : al = nm
+    · subst he
+      simpa using dropSelfAlias_self al _
+    · simpa [he] using dropSelfAlias_alias al nm he _
+
+theorem inv_selectionSet {ts o : List Tok} (h : D (.nt .selectionSet) ts o) (hok : TsOK ts) :
+    ∃ parts : List (List Tok × List Tok), parts ≠ [] ∧
+      ts = tP .braceL :: parts.flatMap (·.1) ++ [tP .braceR] ∧ o = tP .braceL :: parts.flatMap (·.2) ++ [tP .braceR] ∧
+      ∀ p ∈ parts, D (.nt .selection) p.1 p.2 :=
+  inv_block h.nt_inv hok rfl rfl
+
+/-- `SelectionSet?`: nothing, or starts with `{` -/
+theorem first_optSelectionSet {ts o : List Tok} (h : D (.opt (.nt .selectionSet)) ts o) (hok : TsOK ts) :
+    (ts = [] ∧ o = []) ∨ (∃ rest, ts = tP .braceL :: rest) ∧ D (.nt .selectionSet) ts o := by
+  rcases h.opt_inv with h | h
+  · exact .inl h
+  · obtain ⟨parts, _, e, _, _⟩ := inv_selectionSet h hok
+    exact .inr ⟨⟨_, e⟩, h⟩
+
+theorem inv_field {ts o : List Tok} (h : D (.nt .field) ts o) (hok : TsOK ts) :
+    ∃ (colon : Bool) (al nm : Name) (ta oa td od tss oss : List Tok),
+      ts = (if colon then [tName al, tP .colon] else []) ++ ([tName nm] ++ (ta ++ (td ++ tss))) ∧
+      o = dropSelfAlias ((if colon then [tName al, tP .colon] else []) ++ ([tName nm] ++ (oa ++ (od ++ oss)))) ∧
+      (colon = false → al = nm) ∧ D (.opt (.nt (.arguments false))) ta oa ∧ D (.opt (.nt (.directives false))) td od ∧
+      D (.opt (.nt .selectionSet)) tss oss := by
+  obtain ⟨o', rfl, hb⟩ := h.nt_inv.canon_inv
+  obtain ⟨t1, t2, o1, o2, rfl, rfl, d1, d2⟩ := hb.seq_inv'
+  obtain ⟨t3, t4, o3, o4, rfl, rfl, d3, d4⟩ := d2.seq_inv'
+  obtain ⟨t5, t6, o5, o6, rfl, rfl, d5, d6⟩ := d4.seq_inv'
+  obtain ⟨t7, t8, o7, o8, rfl, rfl, d7, d8⟩ := d6.seq_inv'
+  obtain ⟨nm, rfl, rfl⟩ := name_inv d3
+  rcases d1.opt_inv with ⟨rfl, rfl⟩ | d1
+  · exact ⟨false, nm, nm, t5, o5, t7, o7, t8, o8, by simp, by simp, fun _ => rfl, d5, d7, d8⟩
+  · obtain ⟨s1, s2, p1, p2, rfl, rfl, e1, e2⟩ := d1.nt_inv.seq_inv'
+    obtain ⟨al, rfl, rfl⟩ := name_inv e1
+    obtain ⟨rfl, rfl⟩ := punct_inv e2 hok.left.right rfl
+    exact ⟨true, al, nm, t5, o5, t7, o7, t8, o8, by simp, by simp, fun h => (by cases h), d5, d7, d8⟩
+
+theorem inv_spread {ts o : List Tok} (h : D (.nt .fragmentSpread) ts o) (hok : TsOK ts) :
+    ∃ nm td od, nm ≠ str "on" ∧ ts = tP .spread :: tName nm :: td ∧ o = tP .spread :: tName nm :: od ∧
+      D (.opt (.nt (.directives false))) td od := by
+  obtain ⟨t1, t2, o1, o2, rfl, rfl, d1, d2⟩ := h.nt_inv.seq_inv'
+  obtain ⟨t3, t4, o3, o4, rfl, rfl, d3, d4⟩ := d2.seq_inv'
+  obtain ⟨rfl, rfl⟩ := punct_inv d1 hok.left rfl
+  obtain ⟨t, rfl, rfl, hp⟩ := d3.nt_inv.tok_inv
+  simp only [Bool.and_eq_true, beq_iff_eq, Bool.not_eq_true', List.contains_cons, List.contains_nil, Bool.or_false,
+    beq_eq_false_iff_ne] at hp
+  refine ⟨t.value, t4, o4, hp.2, ?_, ?_, d4⟩ <;> (cases t; simp_all [tName])
+
+theorem inv_inline {ts o : List Tok} (h : D (.nt .inlineFragment) ts o) (hok : TsOK ts) :
+    ∃ (tc : Name) (td od tss oss : List Tok), ts = tP .spread :: ((if tc = [] then [] else [tKw "on", tName tc]) ++ (td ++ tss)) ∧
+      o = tP .spread :: ((if tc = [] then [] else [tKw "on", tName tc]) ++ (od ++ oss)) ∧
+      D (.opt (.nt (.directives false))) td od ∧ D (.nt .selectionSet) tss oss := by
+  obtain ⟨t1, t2, o1, o2, rfl, rfl, d1, d2⟩ := h.nt_inv.seq_inv'
+  obtain ⟨t3, t4, o3, o4, rfl, rfl, d3, d4⟩ := d2.seq_inv'
+  obtain ⟨t5, t6, o5, o6, rfl, rfl, d5, d6⟩ := d4.seq_inv'
+  obtain ⟨rfl, rfl⟩ := punct_inv d1 hok.left rfl
+  rcases d3.opt_inv with ⟨rfl, rfl⟩ | d3
+  · exact ⟨[], t5, o5, t6, o6, by simp, by simp, d5, d6⟩
+  · obtain ⟨s1, s2, p1, p2, rfl, rfl, e1, e2⟩ := d3.nt_inv.seq_inv'
+    obtain ⟨rfl, rfl⟩ := kw_inv e1
+    obtain ⟨tc, rfl, rfl⟩ := inv_namedType e2
+    have htc : tc ≠ [] := (hok (tName tc) (by simp)).2 rfl
+    exact ⟨tc, t5, o5, t6, o6, by simp [htc], by simp [htc], d5, d6⟩
+
+/-- the first token of a selection -/
+theorem first_selection {ts o : List Tok} (h : D (.nt .selection) ts o) (hok : TsOK ts) :
+    ∃ t rest, ts = t :: rest ∧ (t.kind = .name ∨ t.kind = .spread) := by
+  rcases h.nt_inv.alt_inv with h | h
+  · obtain ⟨colon, al, nm, ta, oa, td, od, tss, oss, e, _⟩ := inv_field h hok
+    cases colon
+    · exact ⟨tName nm, _, by simpa using e, .inl rfl⟩
+    · exact ⟨tName al, _, by simpa using e, .inl rfl⟩
+  rcases h.alt_inv with h | h
+  · obtain ⟨nm, td, od, _, e, _⟩ := inv_spread h hok
+    exact ⟨_, _, e, .inr rfl⟩
+  · obtain ⟨tc, td, od, tss, oss, e, _⟩ := inv_inline h hok
+    exact ⟨_, _, e, .inr rfl⟩
+
+theorem toList_ofListS (xs : List Selection) : (Selections.ofList xs).toList = xs := by
+  induction xs with
+  | nil => rfl
+  | cons x xs ih => simp [Selections.ofList, Selections.toList, ih]
+
+theorem ofList_ne_nil {xs : List Selection} (h : xs ≠ []) : ∃ s rest, Selections.ofList xs = .cons s rest := by
+  cases xs with
+  | nil => exact absurd rfl h
+  | cons x xs => exact ⟨_, _, rfl⟩
+
+/-- what the selection parser does on a derivable token list -/
+def CplSel (n : Nat) : Prop :=
+  ∀ (ts o : List Tok), TsOK ts → D (.nt .selection) ts o → ∀ (a : AS) (σ' : Stream), Starts a.σ ts σ' → FolSel σ' →
+    Fwd (parseSelection n) a (fun s a' => printSelection s = o ∧ a'.σ = σ')
+
+/-- `{ Selection+ }` through `some` -/
+theorem cpl_selBlock {m : Nat} (hsel : CplSel m) (n : Nat) (ts o : List Tok) (hok : TsOK ts) (hd : D (.nt .selectionSet) ts o)
+    (a : AS) (σ' : Stream) (hs : Starts a.σ ts σ') :
+    Fwd (pSome .braceL .braceR n (parseSelection m)) a
+      (fun ys a' => ys ≠ [] ∧ printSelectionSet (Selections.ofList ys) = o ∧ a'.σ = σ') := by
+  obtain ⟨parts, hne, rfl, rfl, hp⟩ := inv_selectionSet hd hok
+  have hokp : ∀ p ∈ parts, TsOK p.1 := (hok.tail.left).of_flatMap
+  refine ((fwd_bracketG (·.1) (fun (y : Selection) (p : List Tok × List Tok) => printSelection y = p.2) FolSel
+    .braceL .braceR parts
+    (fun p hpm a0 σ1 hst hf => hsel p.1 p.2 (hokp p hpm) (hp p hpm) a0 σ1 hst hf)
+    (fun p hpm => by
+      obtain ⟨t, rest, h1, h2⟩ := first_selection (hp p hpm) (hokp p hpm)
+      exact ⟨t, rest, h1, by rcases h2 with h | h <;> simp [h]⟩)
+    (fun σ1 h => by
+      rcases h with h | ⟨p, hpm, t, rest, hfx, ht⟩
+      · simp [FolSel, h]
+      · obtain ⟨t', rest', h1, h2⟩ := first_selection (hp p hpm) (hokp p hpm)
+        rw [hfx] at h1
+        have : t = t' := (List.cons.inj h1).1
+        subst this
+        have hk : σ1.head.kind = t.kind := by rw [← ht]; rfl
+        rcases h2 with h | h <;> simp [FolSel, hk, h]) n a σ' (tP .braceL) (tP .braceR) rfl rfl (by simpa using hs)).2 hne).mono ?_
+  rintro ys a' ⟨hy, hσ⟩
+  refine ⟨all₂_ne hy hne, ?_, hσ⟩
+  simp only [printSelectionSet, printSelections_eq, toList_ofListS]
+  rw [flatMap_forall₂ (P := printSelection) (g := fun (p : List Tok × List Tok) => p.2) hy]
+
+theorem cpl_fieldTail {m : Nat} (hsel : CplSel m) (n : Nat) (pos : Pos) (al nm : Name) (ta oa td od tss oss : List Tok)
+    (hoka : TsOK ta) (hokd : TsOK td) (hoks : TsOK tss) (da : D (.opt (.nt (.arguments false))) ta oa)
+    (dd : D (.opt (.nt (.directives false))) td od) (dss : D (.opt (.nt .selectionSet)) tss oss) (a : AS) (σ' : Stream)
+    (hs : Starts a.σ (ta ++ (td ++ tss)) σ') (hfol : FolSel σ') :
+    Fwd (fieldTail (parseSelection m) n pos al nm) a (fun s a' => ∃ args ds ss, s = Selection.field al nm args ds ss pos ∧
+      printArguments args = oa ∧ printDirectives ds = od ∧ selOut ss = oss ∧ a'.σ = σ') := by
+  obtain ⟨f1, f2, f3, f4⟩ := hfol
+  rw [Starts.append_iff] at hs
+  obtain ⟨σ1, h1, hs⟩ := hs
+  rw [Starts.append_iff] at hs
+  obtain ⟨σ2, h2, h3⟩ := hs
+  have hss := first_optSelectionSet dss hoks
+  have k3 : σ2.head.kind ≠ .parenL ∧ σ2.head.kind ≠ .at ∧ (tss = [] → σ2.head.kind ≠ .braceL) := by
+    rcases hss with ⟨rfl, _⟩ | ⟨⟨rest, rfl⟩, _⟩
+    · rw [Starts.nil_iff] at h3; rw [h3]; exact ⟨f2, f3, fun _ => f4⟩
+    · rw [h3.head_kind]; exact ⟨by simp [tP], by simp [tP], fun h => by cases h⟩
+  have k2 : σ1.head.kind ≠ .parenL := by
+    rw [h2.firstKind]
+    rcases firstKind_optDirectives dd hokd σ2.head.kind with h | h <;> rw [h]
+    · exact k3.1
+    · decide
+  unfold fieldTail
+  refine Fwd.bind (cpl_arguments false n ta oa hoka da a σ1 h1 k2) ?_
+  rintro as' b1 ⟨has, hσ1⟩
+  refine Fwd.bind (cpl_directives false n td od hokd dd b1 σ2 (by rw [hσ1]; exact h2) k3.2.1 k3.1) ?_
+  rintro ds' b2 ⟨hds, hσ2⟩
+  refine Fwd.bind (fwd_peek b2) ?_
+  rintro t b3 ⟨rfl, rfl⟩
+  rcases hss with ⟨rfl, rfl⟩ | ⟨⟨rest, hrest⟩, dss'⟩
+  · rw [Starts.nil_iff] at h3
+    refine Fwd.ite_neg (by rw [hσ2]; exact k3.2.2 rfl) (Fwd.bind (Fwd.pure Selections.nil _) ?_)
+    rintro ss' b4 ⟨rfl, rfl⟩
+    refine (Fwd.pure _ _).mono ?_
+    rintro y b5 ⟨rfl, rfl⟩
+    exact ⟨as', ds', .nil, rfl, has, hds, rfl, by simp [hσ2, h3]⟩
+  · refine Fwd.ite_pos (by rw [hσ2]; rw [hrest] at h3; rw [h3.head_kind]; rfl) ?_
+    unfold parseOptionalSelectionSetWith
+    refine Fwd.bind (R1 := fun ss a' => ∃ s rest, ss = Selections.cons s rest ∧ printSelectionSet ss = oss ∧ a'.σ = σ')
+      (Fwd.bind (cpl_selBlock hsel n tss oss hoks dss' _ σ' (by simpa [hσ2] using h3)) ?_) ?_
+    · rintro ys b4 ⟨hne, hp, hσ⟩
+      refine (Fwd.pure _ _).mono ?_
+      rintro ss b5 ⟨rfl, rfl⟩
+      obtain ⟨s0, r0, e0⟩ := ofList_ne_nil hne
+      exact ⟨s0, r0, e0, hp, hσ⟩
+    · rintro ss' b4 ⟨s0, r0, rfl, hp, hσ⟩
+      refine (Fwd.pure _ _).mono ?_
+      rintro y b5 ⟨rfl, rfl⟩
+      exact ⟨as', ds', _, rfl, has, hds, by rw [selOut_cons]; exact hp, hσ⟩
+
 end Gql.Parser
